@@ -58,23 +58,30 @@ Definition opt_sign (s : str) : bool * str :=
   | c :: r => if ceq c "-" then (true, r) else if ceq c "+" then (false, r) else (false, s)
   | [] => (false, s)
   end.
-Definition float_guard (s : str) : option Z :=
-  let core := strip is_xsd_ws s in
-  if str_eqb core (L "NaN") then Some 1 else
-  let '(neg, u) := opt_sign core in
-  if str_eqb u (L "INF") then Some (if neg then 3 else 2) else
+(* ([0-9]+(\.[0-9]* )?|\.[0-9]+) : integer digits, optional fraction digits, rest *)
+Definition scan_mantissa (u : str) : str * option str * str :=
   let '(ip, r) := span is_digit u in
   let '(fp, r1) := match r with
                    | c :: t => if ceq c "." then (let '(f, t') := span is_digit t in (Some f, t')) else (None, r)
                    | [] => (None, r)
                    end in
-  let mant_ok := match fp with None => negb (is_nil ip) | Some f => negb (is_nil ip) || negb (is_nil f) end in
-  let exp_ok := match r1 with
-                | [] => true
-                | c :: t => (ceq c "E" || ceq c "e") &&
-                            (let '(_, t1) := opt_sign t in let '(ds, t2) := span is_digit t1 in negb (is_nil ds) && is_nil t2)
-                end in
-  if mant_ok && exp_ok then Some 0 else None.
+  (ip, fp, r1).
+Definition mant_ok (ip : str) (fp : option str) : bool :=
+  match fp with None => negb (is_nil ip) | Some f => negb (is_nil ip) || negb (is_nil f) end.
+(* ([Ee][+\-]?[0-9]+)? up to the end *)
+Definition exp_ok (r1 : str) : bool :=
+  match r1 with
+  | [] => true
+  | c :: t => (ceq c "E" || ceq c "e") &&
+              (let '(_, t1) := opt_sign t in let '(ds, t2) := span is_digit t1 in negb (is_nil ds) && is_nil t2)
+  end.
+Definition float_guard (s : str) : option Z :=
+  let core := strip is_xsd_ws s in
+  if str_eqb core (L "NaN") then Some 1 else
+  let '(neg, u) := opt_sign core in
+  if str_eqb u (L "INF") then Some (if neg then 3 else 2) else
+  let '(ip, fp, r1) := scan_mantissa u in
+  if mant_ok ip fp && exp_ok r1 then Some 0 else None.
 (* from_xsd(value, Float/Double): the guard, then float(value); only the class of the result is modelled *)
 Definition parse_float_class (s : str) : res Z :=
   match float_guard s with Some c => Ok c | None => Err ValueError end.
